@@ -104,6 +104,58 @@ Theorem C04_default_exact :
 Proof. exact default_exact. Qed.
 Print Assumptions C04_default_exact.
 
+(* The three formulations (DESIGN.md's C04_F), with the objective structure as hypothesis and the
+   formulation's own S.  is_default_min n m A b R c Qo S x := x is binary and minimises the value of
+   get_qubo(False, None) built with rho = S + 1 over all binary vectors; is_constrained_opt := x is
+   binary, feasible (A x = b, x'Rx = 0) and minimises c'x + x'Qo x over the binary feasible vectors
+   (Penalty_facts.v).  Conclusion in each case: the two sets coincide and the minimum value is the
+   optimal cost. *)
+Theorem C04_arc :
+  forall (costs grid : list Z) (vars : list avar) m A b R,
+    NoDup vars ->
+    (forall a s t, In (a, s, t) vars -> (a < length costs)%nat /\ In s grid /\ In t grid) ->
+    (forall i j, (i < length vars)%nat -> (j < length vars)%nat -> 0 <= R i j) ->
+    (exists z, Zbinary (length vars) z /\ Zfeasible m (length vars) A b R z) ->
+    let n := length vars in
+    let c := arc_obj costs vars in
+    let S := S_arc costs (length grid) in
+    (forall x, is_default_min n m A b R c (fun _ _ => 0) S x <-> is_constrained_opt n m A b R c (fun _ _ => 0) x) /\
+    (forall x y, is_default_min n m A b R c (fun _ _ => 0) S x -> is_constrained_opt n m A b R c (fun _ _ => 0) y ->
+                 default_value n m A b R c (fun _ _ => 0) S x = Zobjective n c (fun _ _ => 0) y).
+Proof. exact arc_default_exact. Qed.
+Print Assumptions C04_arc.
+
+Theorem C04_path :
+  forall (rc : list Z) m A b R,
+    (forall i j, (i < length rc)%nat -> (j < length rc)%nat -> 0 <= R i j) ->
+    (exists z, Zbinary (length rc) z /\ Zfeasible m (length rc) A b R z) ->
+    let n := length rc in
+    let c := Zvec_of rc in
+    let S := S_path rc in
+    (forall x, is_default_min n m A b R c (fun _ _ => 0) S x <-> is_constrained_opt n m A b R c (fun _ _ => 0) x) /\
+    (forall x y, is_default_min n m A b R c (fun _ _ => 0) S x -> is_constrained_opt n m A b R c (fun _ _ => 0) y ->
+                 default_value n m A b R c (fun _ _ => 0) S x = Zobjective n c (fun _ _ => 0) y).
+Proof. exact path_default_exact. Qed.
+Print Assumptions C04_path.
+
+Theorem C04_seq :
+  forall (n : nat) (L : Z) (V : nat) (costs vcs : list Z) (lin : list lin_entry) (quad : list quad_entry) m A b R,
+    0 <= L -> length vcs = V ->
+    NoDup (seq_triples lin quad) ->
+    (forall v si a, In (v, si, a) (seq_triples lin quad) ->
+                    (v < V)%nat /\ Z.of_nat si + 1 < L /\ (a < length costs)%nat) ->
+    (forall e, In e lin -> 0 <= snd e <= 1) ->
+    (forall i j, (i < n)%nat -> (j < n)%nat -> 0 <= R i j) ->
+    (exists z, Zbinary n z /\ Zfeasible m n A b R z) ->
+    let c := seq_c costs vcs lin in
+    let Qo := seq_Qo costs vcs quad in
+    let S := S_seq L costs vcs in
+    (forall x, is_default_min n m A b R c Qo S x <-> is_constrained_opt n m A b R c Qo x) /\
+    (forall x y, is_default_min n m A b R c Qo S x -> is_constrained_opt n m A b R c Qo y ->
+                 default_value n m A b R c Qo S x = Zobjective n c Qo y).
+Proof. exact seq_default_exact. Qed.
+Print Assumptions C04_seq.
+
 (* Non-vacuity of C04_default_exact and C04_S_seq / C04_S_arc on concrete data.
    Program: min 3 x0 - 2 x1 + 5 x0 x1  s.t. x0 + x1 = 1, x0 x1 = 0.  Coefficient sum 10 <= S = 10,
    (0,1) is feasible, the default QUBO (rho = 11) has value -2 there. *)
